@@ -85,7 +85,7 @@ func genC18File(r *rng, broken bool) string {
 func c18Encode(mode string, limit int, names, contents []string) string {
 	var fs []string
 	for i := range names {
-		fs = append(fs, esc(names[i]), esc(contents[i]))
+		fs = append(fs, vesc(names[i]), vesc(contents[i]))
 	}
 	return fmt.Sprintf("mode=%s;limit=%d;files=%s", mode, limit, strings.Join(fs, "|"))
 }
@@ -194,7 +194,7 @@ func obsC18(in string) string {
 	}
 	self, _ := os.Executable()
 	bin := knutBin()
-	var res runResult
+	var res vRunResult
 	var ops map[string][]string
 	switch mode {
 	case "strace":
